@@ -32,13 +32,13 @@ func specCompact(c uint32, exp uint) *big.Int {
 
 func vMaxExp() int {
 	if vTier() == 1 {
-		return 255
+		return 66 // 528-bit values: twice the width any accepted target can have; exponents 67..255 are outside the bound
 	}
 	return 34
 }
 
 // C09(1): CompactToBig(c) == spec value for every 32-bit c (exponent split concretely).
-//verif:opts reach=end bigw=320 t_bigw=2112
+//verif:opts reach=end bigw=320 t_bigw=576
 func VH_compact_to_big_spec() {
 	c := vNondetU32("c")
 	exp := uint(vSplitU32(c>>24, 256))
@@ -53,7 +53,7 @@ func VH_compact_to_big_spec() {
 
 // C09(2): BigToCompact(CompactToBig(c)) is the canonical form of c; canonical c are fixed points;
 // the value is preserved; the sign bit is set only for negative values; bit 23 is never a mantissa bit.
-//verif:opts reach=end,canonical bigw=320 t_bigw=2112
+//verif:opts reach=end,canonical bigw=320 t_bigw=576
 func VH_compact_roundtrip() {
 	c := vNondetU32("c")
 	exp := uint(vSplitU32(c>>24, 256))
